@@ -448,21 +448,21 @@ class CellConversion:
 
         # compute the base vectors of the lattice
         domain = cell.fillid
-        if len(lat_base_vectors) != len(domain.bounds):
-            if len(lat_base_vectors) != domain.bounds.dims():
-                msg = ('Problem of domain definition for lattice; expected '
-                       f'{len(lat_base_vectors)} non-trivial bounds, got '
-                       f'{domain.bounds.dims()}')
+        n_base = len(lat_base_vectors)
+        if len(domain.bounds) < n_base:
+            msg = ('Problem of domain definition for lattice; expected '
+                   f'{n_base} ranges, got {len(domain.bounds)}')
+            raise LatticeError(msg)
+        # MCNP always writes three ranges: those beyond the dimensions of the
+        # lattice must be trivial; the others may have any length, including
+        # one (a single row or a single element)
+        for range_ in list(domain.bounds)[n_base:]:
+            if range_[0] != range_[1]:
+                msg = ('Problem of domain definition for lattice; the '
+                       f'lattice extends in {n_base} direction(s), but the '
+                       f'{range_[0]}:{range_[1]} bound given for another '
+                       'direction is not trivial')
                 raise LatticeError(msg)
-            n_missing_bounds = len(lat_base_vectors) - len(domain.bounds)
-            for i in range(n_missing_bounds):
-                range_ = domain.bounds[-1 - i]
-                if range_[0] != range_[1]:
-                    msg = ('Problem of domain definition for lattice; '
-                           f'expected {len(lat_base_vectors)} non-trivial '
-                           f'bounds, but the {range_[0]}:{range_[1]} bound is '
-                           'not trivial')
-                    raise LatticeError(msg)
 
         for index, universe in domain.items():
             if universe == 0:
